@@ -3,7 +3,7 @@
 import ast
 import copy
 
-__all__ = ['chain', 'is_chain', 'src', 'walk', 'stmts', 'Env', 'call_name', 'const',
+__all__ = ['reaching_value', 'chain', 'is_chain', 'src', 'walk', 'stmts', 'Env', 'call_name', 'const',
            'names_loaded', 'names_stored', 'is_none_test', 'strip_not', 'flatten_bool',
            'norm', 'same', 'kwarg', 'contains_name', 'iter_child_stmts', 'assigned_names',
            'targets_of']
@@ -175,8 +175,19 @@ class Env:
                 params = params + [node.args.kwarg.arg]
         self.params = set(params)
         self.counts = assigned_names(body)
+        # in-place augmented assignment on an alias of a container attribute (``pairs = self._pairs; pairs |= ...``)
+        # keeps the alias; augmented assignment on anything else is a rebinding
+        self.aug = {}
+        for s in stmts(body):
+            if isinstance(s, ast.AugAssign) and isinstance(s.target, ast.Name):
+                self.aug[s.target.id] = self.aug.get(s.target.id, 0) + 1
         self.defs = {}
         self._collect(body, in_loop=False)
+        for name, n in self.aug.items():
+            value = self.defs.get(name)
+            if value is not None and self.counts.get(name) == 1 + n and chain(value) and len(chain(value)) >= 2:
+                continue
+            self.defs.pop(name, None)
 
     def _collect(self, body, in_loop):
         for s in body:
@@ -185,7 +196,7 @@ class Env:
             if (isinstance(s, ast.Assign) and len(s.targets) == 1
                     and isinstance(s.targets[0], ast.Name) and not in_loop):
                 name = s.targets[0].id
-                if self.counts.get(name) == 1 and name not in self.params:
+                if self.counts.get(name) == 1 + self.aug.get(name, 0) and name not in self.params:
                     self.defs[name] = s.value
             if (isinstance(s, ast.Assign) and len(s.targets) == 1 and not in_loop
                     and isinstance(s.targets[0], ast.Tuple) and isinstance(s.value, ast.Tuple)
@@ -199,19 +210,27 @@ class Env:
     def single(self, name):
         return self.defs.get(name)
 
-    def expand(self, node, depth=0, skip=()):
-        """Return a copy of ``node`` with single-assignment temporaries substituted."""
+    def expand(self, node, depth=0, skip=(), alias_only=False):
+        """Return a copy of ``node`` with single-assignment temporaries substituted.
+
+        With ``alias_only`` only pure aliases (names bound to a name or attribute chain) are substituted,
+        which preserves object identity (``seen = set()`` is not replaced by a new ``set()``).
+        """
         env = self
+        if isinstance(node, ast.Name) and isinstance(node.ctx, ast.Store):
+            node = ast.Name(id=node.id, ctx=ast.Load())
 
         class T(ast.NodeTransformer):
             def visit_Name(self, n):
                 if isinstance(n.ctx, ast.Load) and n.id in env.defs and n.id not in skip and depth < 12:
                     value = env.defs[n.id]
+                    if alias_only and chain(value) is None:
+                        return n
                     # do not expand through values that depend on rebound names
                     for used in names_loaded(value):
                         if env.counts.get(used, 0) > 1 or (used in env.params and env.counts.get(used, 0) > 0):
                             return n
-                    return env.expand(value, depth + 1, skip)
+                    return env.expand(value, depth + 1, skip, alias_only)
                 return n
 
             def visit_Lambda(self, n):
@@ -260,3 +279,28 @@ def norm(node):
 
 def same(a, b):
     return src(a) == src(b)
+
+
+def reaching_value(func, name, lineno):
+    """Value of the last *unconditional* (top-level) plain assignment ``name = value`` before ``lineno``.
+
+    Returns None when there is none, or when a conditional/loop/augmented binding of the name lies between that
+    assignment and ``lineno`` (then several definitions may reach).
+    """
+    body = func.body if hasattr(func, 'body') else func
+    best = None
+    for s in body:
+        if s.lineno >= lineno:
+            break
+        if isinstance(s, ast.Assign) and any(isinstance(t, ast.Name) and t.id == name for t in s.targets):
+            best = s
+        elif isinstance(s, ast.Assign) and any(isinstance(t, ast.Tuple) and any(isinstance(e, ast.Name) and e.id == name for e in t.elts)
+                                                for t in s.targets):
+            best = None
+        elif not isinstance(s, (ast.FunctionDef, ast.AsyncFunctionDef, ast.ClassDef)):
+            for sub in stmts([s]):
+                if sub is not s and name in targets_of(sub) and sub.lineno < lineno:
+                    best = None
+            if isinstance(s, (ast.AugAssign, ast.For)) and name in targets_of(s):
+                best = None
+    return best.value if best is not None else None
